@@ -129,6 +129,27 @@ def parseFinderOpX (s : String) : Option FinderOpX :=
 def parseFinderOpsX (s : String) : Option (List FinderOpX) :=
   if s == "-" then some [] else (s.splitOn ",").mapM parseFinderOpX
 
+/-- the alias programs: `s:<off>:<len>` / `j:<off>:<len>` search / iterate over a sub-slice of
+the first haystack buffer of the program (the buffer the needle is borrowed from) -/
+def parseFinderOpAl (buf : Array UInt8) (s : String) : Option FinderOpX :=
+  if s.startsWith "s:" || s.startsWith "j:" then
+    match (s.drop 2).toString.splitOn ":" with
+    | [o, l] => do
+      let o ← o.toNat?
+      let l ← l.toNat?
+      if o + l > buf.size then none else
+      let sl : Slice := ⟨{ region := 0, base := mmOpsHayBase, bytes := buf }, o, l⟩
+      some (if s.startsWith "s:" then .base (.find sl) else .iter sl)
+    | _ => none
+  else parseFinderOpX s
+
+def parseFinderOpsAl (s : String) : Option (List FinderOpX) :=
+  if s == "-" then some [] else
+  let toks := s.splitOn ","
+  let buf := (toks.findSome? fun t =>
+    if t.startsWith "f:" || t.startsWith "i:" then parseHex (t.drop 2).toString else none).getD #[]
+  toks.mapM (parseFinderOpAl buf)
+
 def fmtMmOutX : OutX → String
   | .base o => fmtMmOut o
   | .count k => toString k
@@ -216,7 +237,7 @@ def handleMemmem (op : String) (args : List String) : Option String :=
     let cfg ← parseMemmemCfg cfg
     let pf ← parsePf pf
     let n := mmNeedle (← parseHex needle)
-    let ops ← parseFinderOpsX ops
+    let ops ← parseFinderOpsAl ops
     some (afterBuild (mmBuild cfg pf Pair.defaultRank n) fun f =>
       match Finder.runX cfg ops f {} {} with
       | .ok (os, _, heap) c => s!"ok {fmtMmOutsX os} allocs={heap.allocs} steps={c.steps}"
@@ -224,7 +245,7 @@ def handleMemmem (op : String) (args : List String) : Option String :=
   | "finderrevopsal", [cfg, _off, needle, ops] => do
     let cfg ← parseMemmemCfg cfg
     let n := mmNeedle (← parseHex needle)
-    let ops ← parseFinderOpsX ops
+    let ops ← parseFinderOpsAl ops
     some (afterBuild (FinderRev.new n) fun f =>
       match FinderRev.runX cfg ops f {} {} with
       | .ok (os, _, heap) c => s!"ok {fmtMmOutsX os} allocs={heap.allocs} steps={c.steps}"
